@@ -47,6 +47,12 @@ const (
 	nsDeleting
 )
 
+// mop is one step of a mark / unmark / removal history (kind 0 Mark, 1 Unmark, 2 Remove)
+type mop struct {
+	kind int
+	ids  []int
+}
+
 var nstateNames = []string{"NInFlight", "NReady", "NDisruptedTaint", "NCordoned", "NNotReady", "NUninitialized", "NMarkedForDeletion", "NDeleting"}
 
 type pcase struct {
@@ -56,6 +62,7 @@ type pcase struct {
 	Catalog   []pIT                    `json:"catalog"`
 	Existing  []map[string]interface{} `json:"existing_nodes"`
 	Deleting  int                      `json:"existing_being_deleted"`
+	History   []string                 `json:"mark_history,omitempty"`
 	Pods      []string                 `json:"pods"`
 	Anti      bool                     `json:"pods_anti_affine"`
 	Claims    [][]string               `json:"new_nodeclaim_options"`
@@ -110,7 +117,7 @@ func runP(c *kit.Ctx, r *kit.Rand, mode int) {
 	if corpus {
 		nIT, start = 1, 1
 	}
-	if mode == 4 {
+	if mode == 4 || mode == 5 {
 		nIT, start = 2, 1 // 2 and 4 cpu
 	}
 	var catalog []*cloudprovider.InstanceType
@@ -151,6 +158,9 @@ func runP(c *kit.Ctx, r *kit.Rand, mode int) {
 	if mode == 4 {
 		limits = corev1.ResourceList{corev1.ResourceCPU: *resource.NewQuantity(6, resource.DecimalSI)}
 	}
+	if mode == 5 {
+		limits = corev1.ResourceList{corev1.ResourceCPU: *resource.NewQuantity(8, resource.DecimalSI)}
+	}
 	np := test.NodePool(v1.NodePool{ObjectMeta: metav1.ObjectMeta{Name: "pool"}, Spec: v1.NodePoolSpec{Limits: v1.Limits(limits)}})
 	kit.Apply(ctx, cl, np)
 
@@ -159,15 +169,20 @@ func runP(c *kit.Ctx, r *kit.Rand, mode int) {
 
 	// existing nodes of the pool in every lifecycle state a provisioning pass can meet. All of them are real API
 	// objects delivered to the real cluster state the way the informers / disruption queue would.
-	nExisting := r.Intn(4)
+	nExisting := r.Intn(5)
 	if corpus {
 		nExisting = 0
+	}
+	if mode == 5 { // corpus: seeded change C03-2 — limits cpu=8, two ready 4-cpu nodes, command on both, first one vanishes, rollback
+		nExisting = 2
 	}
 	if mode == 4 { // corpus: seeded change C03-1 — limits cpu=6, one 4-cpu node with the disrupted taint
 		nExisting = 1
 	}
+	var jhist []string
 	marked := map[string]bool{}
-	stateOf := map[string]int{}
+	stateOf := map[string]int{} // lifecycle state apart from the marking
+	var hist []mop
 	for i := 0; i < nExisting; i++ {
 		it := kit.Pick(r, catalog)
 		st := r.Intn(len(nstateNames))
@@ -176,6 +191,9 @@ func runP(c *kit.Ctx, r *kit.Rand, mode int) {
 		}
 		if mode == 4 {
 			it, st = catalog[len(catalog)-1], nsDisruptedTaint
+		}
+		if mode == 5 {
+			it, st = catalog[len(catalog)-1], nsReady
 		}
 		name := fmt.Sprintf("existing-%d", i)
 		labels := map[string]string{v1.NodePoolLabelKey: "pool", corev1.LabelInstanceTypeStable: it.Name, corev1.LabelTopologyZone: "test-zone-1",
@@ -242,9 +260,171 @@ func runP(c *kit.Ctx, r *kit.Rand, mode int) {
 		case nsMarkedForDeletion:
 			cluster.MarkForDeletion(nc.Status.ProviderID)
 			marked[name] = true
+			hist = append(hist, mop{0, []int{i + 1}})
+			st = nsReady // its state once a rollback unmarks it (the objects are those of a plain ready node)
 		}
 		stateOf[name] = st
 		c.Count("P:existing:" + nstateNames[st][1:])
+	}
+
+	// a mark / unmark / removal history on the real Cluster before the pass: disruption commands that start
+	// (MarkForDeletion), candidates that vanish out of band, commands that are rolled back (UnmarkForDeletion with
+	// ids that are no longer tracked, or never were, in any position)
+	const ghost = 99
+	idName := func(id int) string { return fmt.Sprintf("existing-%d", id-1) }
+	pid := func(id int) string {
+		if id == ghost {
+			return "fake://ghost"
+		}
+		return "fake://" + idName(id)
+	}
+	tracked := map[int]bool{}
+	var tracked0, cands []int
+	for i := 0; i < nExisting; i++ {
+		tracked0 = append(tracked0, i+1)
+		tracked[i+1] = true
+		if stateOf[idName(i+1)] != nsDeleting {
+			cands = append(cands, i+1)
+		}
+	}
+	doOp := func(o mop) {
+		hist = append(hist, o)
+		switch o.kind {
+		case 0:
+			cluster.MarkForDeletion(lo.Map(o.ids, func(id int, _ int) string { return pid(id) })...)
+			for _, id := range o.ids {
+				if tracked[id] {
+					marked[idName(id)] = true
+				}
+			}
+			c.Count("P:history:mark")
+		case 1:
+			cluster.UnmarkForDeletion(lo.Map(o.ids, func(id int, _ int) string { return pid(id) })...)
+			untrackedBeforeTracked := false
+			seenUntracked := false
+			for _, id := range o.ids {
+				if !tracked[id] {
+					seenUntracked = true
+				} else if seenUntracked && marked[idName(id)] {
+					untrackedBeforeTracked = true
+				}
+				delete(marked, idName(id))
+			}
+			if untrackedBeforeTracked {
+				c.Count("P:history:unmark:untracked-id-before-a-marked-one")
+			} else {
+				c.Count("P:history:unmark")
+			}
+		case 2:
+			name := idName(o.ids[0])
+			nc := &v1.NodeClaim{}
+			if err := cl.Get(ctx, client.ObjectKey{Name: name}, nc); err != nil {
+				panic(err)
+			}
+			nc.Finalizers = nil
+			if err := cl.Update(ctx, nc); err != nil {
+				panic(err)
+			}
+			if err := cl.Delete(ctx, nc); err != nil {
+				panic(err)
+			}
+			node := &corev1.Node{}
+			hasNode := cl.Get(ctx, client.ObjectKey{Name: name}, node) == nil
+			if hasNode {
+				if err := cl.Delete(ctx, node); err != nil {
+					panic(err)
+				}
+			}
+			if r.Bool() {
+				cluster.DeleteNodeClaim(name)
+				cluster.DeleteNode(name)
+			} else {
+				cluster.DeleteNode(name)
+				cluster.DeleteNodeClaim(name)
+			}
+			delete(tracked, o.ids[0])
+			delete(marked, name)
+			c.Count("P:history:remove")
+		}
+	}
+	shuffled := func(xs []int) []int {
+		out := append([]int(nil), xs...)
+		for i := len(out) - 1; i > 0; i-- {
+			j := r.Intn(i + 1)
+			out[i], out[j] = out[j], out[i]
+		}
+		return out
+	}
+	withGhost := func(xs []int) []int {
+		if !r.Chance(1, 3) {
+			return xs
+		}
+		k := r.Intn(len(xs) + 1)
+		return append(append(append([]int(nil), xs[:k]...), ghost), xs[k:]...)
+	}
+	switch {
+	case mode == 5:
+		doOp(mop{0, []int{1, 2}})
+		doOp(mop{2, []int{1}})
+		doOp(mop{1, []int{1, 2}})
+	case mode <= 2 && len(cands) >= 1 && r.Chance(2, 3):
+		// a command over a random candidate list, some candidates vanish, usually rolled back
+		cmd := shuffled(cands)[:r.Range(1, len(cands))]
+		doOp(mop{0, withGhost(cmd)})
+		for _, id := range cmd {
+			if stateOf[idName(id)] != nsDeleting && r.Chance(1, 3) {
+				doOp(mop{2, []int{id}})
+			}
+		}
+		if r.Chance(3, 4) {
+			un := cmd
+			if r.Chance(1, 3) {
+				un = shuffled(cmd)
+			}
+			doOp(mop{1, withGhost(un)})
+		}
+		if r.Chance(1, 4) && len(cands) > 0 { // a second command / stray unmark
+			doOp(mop{r.Intn(2), withGhost(shuffled(cands)[:r.Range(1, len(cands))])})
+		}
+	}
+	// what the real Cluster says about every node it still tracks, and what this harness assumes
+	if len(hist) > 0 {
+		var obs, exp []string
+		byPID := map[string]*state.StateNode{}
+		for _, sn := range cluster.DeepCopyNodes() {
+			byPID[sn.ProviderID()] = sn
+		}
+		for _, id := range tracked0 {
+			sn, ok := byPID[pid(id)]
+			if ok != tracked[id] {
+				panic(fmt.Sprintf("harness: cluster state tracks %s = %v, expected %v", pid(id), ok, tracked[id]))
+			}
+			if !ok {
+				continue
+			}
+			isMarked := sn.MarkedForDeletion()
+			if stateOf[idName(id)] == nsDeleting { // MarkedForDeletion() is also true for a deleting claim; not part of the history
+				isMarked = marked[idName(id)]
+			}
+			obs = append(obs, kit.GPair(gname(id), kit.GBool(isMarked)))
+			exp = append(exp, kit.GPair(gname(id), kit.GBool(marked[idName(id)])))
+		}
+		ghist := kit.GListOf(hist, func(o mop) string {
+			ids := kit.GListOf(o.ids, gname)
+			switch o.kind {
+			case 0:
+				return "(MMark " + ids + ")"
+			case 1:
+				return "(MUnmark " + ids + ")"
+			}
+			return "(MRemove " + gname(o.ids[0]) + ")"
+		})
+		jh := lo.Map(hist, func(o mop, _ int) string {
+			return fmt.Sprintf("%s%v", []string{"Mark", "Unmark", "Remove"}[o.kind], o.ids)
+		})
+		c.AddCase(fmt.Sprintf("CaseMk %s %s %s %s", kit.GListOf(tracked0, gname), ghist, kit.GList(obs), kit.GList(exp)),
+			map[string]interface{}{"kind": "mark-history", "tracked": tracked0, "history": jh, "observed": obs}, "Mk:"+fmt.Sprint(tracked0, jh))
+		jhist = jh
 	}
 
 	// pod batch
@@ -256,6 +436,9 @@ func runP(c *kit.Ctx, r *kit.Rand, mode int) {
 	if mode == 4 {
 		nPods, anti = 2, false
 	}
+	if mode == 5 {
+		nPods, anti = 3, true
+	}
 	var pods []*corev1.Pod
 	var jpods []string
 	for i := 0; i < nPods; i++ {
@@ -265,6 +448,9 @@ func runP(c *kit.Ctx, r *kit.Rand, mode int) {
 		}
 		if mode == 4 {
 			cpuReq = "1500m"
+		}
+		if mode == 5 {
+			cpuReq = "3"
 		}
 		opts := test.PodOptions{ObjectMeta: metav1.ObjectMeta{Name: fmt.Sprintf("p%d", i), UID: types.UID(fmt.Sprintf("uid-p%d", i))},
 			ResourceRequirements: corev1.ResourceRequirements{Requests: corev1.ResourceList{corev1.ResourceCPU: resource.MustParse(cpuReq)}}}
@@ -317,6 +503,9 @@ func runP(c *kit.Ctx, r *kit.Rand, mode int) {
 		}
 		caps = lo.Assign(caps, corev1.ResourceList{"nodes": *resource.NewQuantity(1, resource.DecimalSI)})
 		st := stateOf[nc.Name]
+		if marked[nc.Name] && st != nsDeleting {
+			st = nsMarkedForDeletion
+		}
 		beingDeleted := !nc.DeletionTimestamp.IsZero() || marked[nc.Name]
 		if beingDeleted != (st == nsDeleting || st == nsMarkedForDeletion) {
 			panic("harness: API state and generated lifecycle state disagree for " + nc.Name)
@@ -443,7 +632,7 @@ func runP(c *kit.Ctx, r *kit.Rand, mode int) {
 		key = fmt.Sprintf("P:%v|%v|%v|%v|%v", milli(limits), jcat, jpods, jclaims, jlaunched)
 	}
 	g := fmt.Sprintf("CaseP %s %s %s %s %s %s", kit.GBool(anti), gRL(limits), gnodes, kit.GList(gclaims), gRL(remaining), kit.GList(glaunched))
-	c.AddCase(g, pcase{Kind: "pass", KfKey: kf, Limits: milli(limits), Catalog: jcat, Existing: jnodes,
+	c.AddCase(g, pcase{Kind: "pass", KfKey: kf, Limits: milli(limits), Catalog: jcat, Existing: jnodes, History: jhist,
 		Deleting: nDeleting, Pods: jpods, Anti: anti, Claims: jclaims, Launched: jlaunched, Remaining: milli(remaining), Exceeded: exceeded}, key)
 }
 
@@ -454,6 +643,7 @@ func partP(c *kit.Ctx) int {
 	}
 	runP(c, c.Rand.Fork(), 3) // corpus first
 	runP(c, c.Rand.Fork(), 4)
+	runP(c, c.Rand.Fork(), 5)
 	for i := 0; i < n; i++ {
 		runP(c, c.Rand.Fork(), i%3)
 	}
